@@ -7,6 +7,8 @@
    product, seeded dense sample, full 2^16 sweeps of version and sub-id, factories asked for n tokens) and logs records
    with keys as four 16-bit limbs.
 3. TLC validates every logged record against the limb form of Token.tla at the real widths (spec/TokenTrace.tla).
+   (Supplement: spec/TokenApalache.tla restates Token.tla at the real widths; Apalache decides it symbolically for all
+   2^64 keys and for the factory by an inductive invariant.  TLC remains the checker of record.)
    Verdict entries with p == "C20" are violations; "C20-model" is drift of the implementation-shaped model (exact
    overflow boundary), reported as a note; "C20-secondary"/"C20-harness" without a TLC-confirmed violation are tool errors.
 
@@ -195,6 +197,7 @@ def engine(prop, tier, seed, work):
             os.makedirs(check.ROOT + "/replays", exist_ok=True)
             open(cex, "w").write(r["out"][-200000:])
             res.viol.append({"prop": prop, "scn": "model:" + cfg, "clauses": ["model:" + ",".join(r["violated"])], "replay": cex, "first_line": 0})
+    apalache_supplement(prop, work, res)
     # 2. + 3. the real code, validated by TLC
     scns = scenarios(tier, seed)
     verdict = {"n": 0, "evals": 0}
@@ -216,6 +219,48 @@ def engine(prop, tier, seed, work):
     res.notes.append("factories: %d fresh TokenFactory runs (%d reached the overflow panic); exact boundary checked by TLC: "
                      "65535 tokens (sub ids 0..65534) are handed out, request 65536 and every later one panics" % (facs, fac_panicked))
     return res
+
+
+# ------------------------------------------------------------------------------ Apalache supplement
+def apalache(args, work, timeout=180):
+    """run apalache-mc on spec/TokenApalache.tla; returns 'ok' | 'violated' | 'unavailable' | 'inconclusive'"""
+    if not shutil.which("apalache-mc"):
+        return "unavailable", ""
+    out_dir = os.path.join(work, "apalache_out")
+    try:
+        p = check.sh(["apalache-mc", "check", "--out-dir=" + out_dir] + args + ["TokenApalache.tla"], cwd=check.SPEC,
+                     timeout=timeout, check=False)
+    except check.ToolError as e:
+        return "inconclusive", str(e)[-1500:]
+    finally:
+        shutil.rmtree(out_dir, ignore_errors=True)
+    if "The outcome is: NoError" in p.stdout and "EXITCODE: OK" in p.stdout:
+        return "ok", p.stdout
+    if "The outcome is: Error" in p.stdout and "invariant" in p.stdout and "violated" in p.stdout:
+        return "violated", p.stdout
+    return "inconclusive", p.stdout[-1500:]
+
+
+APALACHE_RUNS = [
+    ("A: codec clauses for all 2^64 triples/keys at IB=32,VB=16,SB=16 + factory invariant initially", ["--length=0", "--init=Init", "--inv=InitInv"]),
+    ("B: factory invariant inductive under Request, implies distinct/loud/boundary clauses", ["--length=1", "--init=IndInit", "--inv=StepInv"]),
+]
+
+
+def apalache_supplement(prop, work, res):
+    """SUPPLEMENT (not the checker of record): the statements of Token.tla at the real widths, by SMT"""
+    for desc, args in APALACHE_RUNS:
+        st, out = apalache(args, work)
+        res.cmds.append("apalache-mc check %s TokenApalache.tla" % " ".join(args))
+        if st == "ok":
+            res.notes.append("Apalache supplement %s: holds (symbolic, unbounded integers)" % desc)
+        elif st == "violated":
+            cex = "%s/replays/%s_apalache.txt" % (check.ROOT, prop)
+            os.makedirs(check.ROOT + "/replays", exist_ok=True)
+            open(cex, "w").write(out[-100000:])
+            res.viol.append({"prop": prop, "scn": "model:apalache", "clauses": ["model:apalache:" + args[-1]], "replay": cex, "first_line": 0})
+        else:
+            res.notes.append("Apalache supplement %s: %s (TLC results above are unaffected)" % (desc, st))
 
 
 # --------------------------------------------------------------------------------------------- replay
@@ -350,6 +395,22 @@ def _st_variant(name):
     return run
 
 
+def _st_apalache(args):
+    def run(work=None):
+        own = work is None
+        if own:
+            work = "%s/work/selftest_tokenapa_%d" % (check.ROOT, os.getpid())
+        os.makedirs(work, exist_ok=True)
+        try:
+            st, out = apalache(args, work)
+            assert st in ("violated", "unavailable"), "Apalache did not report the wrong statement violated: %s %s" % (st, out[-300:])
+            return True
+        finally:
+            if own:
+                shutil.rmtree(work, ignore_errors=True)
+    return run
+
+
 _DESC = {
     "limb": "one limb of a recorded key changed -> pack_limbs",
     "unpack": "recorded unpack result changed in the version limb -> unpack_roundtrip",
@@ -362,7 +423,11 @@ _DESC = {
     "fkey": "one key inside a fully logged factory run changed in the version limb -> factory_token_key",
 }
 SELFTEST = [("token trace: " + _DESC[n], _st_trace(n)) for n in _mutations()] + \
-           [("token model: variant %s -> TLC reports %s* violated" % (n, w), _st_variant(n)) for n, w in VARIANT_CFGS.items()]
+           [("token model: variant %s -> TLC reports %s* violated" % (n, w), _st_variant(n)) for n, w in VARIANT_CFGS.items()] + \
+           [("token supplement: 'no key equals the notify key' without excluding slot id 2^32-1 -> Apalache finds (2^32-1, 0xFFFF, 0xFFFF)",
+             _st_apalache(["--length=0", "--init=Init", "--inv=BadNotNotify"])),
+            ("token supplement: wrapping sub-id successor -> Apalache reports the factory invariant violated",
+             _st_apalache(["--length=1", "--init=IndInit", "--inv=StepInv", "--next=NextWrap"]))]
 
 
 if __name__ == "__main__":
